@@ -83,6 +83,19 @@ package logf
 //@   ensures [C04] (ok11 && err == nil) ==> st.SLogType == (k11 == 0 ? decStrV(src, q10, 10, d0) : "")
 //@   ensures [C06] (ok10 && k11 == 2) ==> err != nil
 //@   ensures [C04] ok11 ==> (err == nil && readBuf.buf.i == q11)
+//@   site ).Read#0 assert [C04] $2 == 0 && $3 == true
+//@   site ).Read#1 assert [C04] $2 == 1 && $3 == true
+//@   site ).Read#2 assert [C04] $2 == 2 && $3 == true
+//@   site ).Read#3 assert [C04] $2 == 3 && $3 == true
+//@   site ).Read#4 assert [C04] $2 == 4 && $3 == false
+//@   site ).Read#5 assert [C04] $2 == 5 && $3 == false
+//@   site ).Read#6 assert [C04] $2 == 6 && $3 == false
+//@   site ).Read#7 assert [C04] $2 == 7 && $3 == false
+//@   site ).Read#8 assert [C04] $2 == 8 && $3 == false
+//@   site ).Read#9 assert [C04] $2 == 9 && $3 == false
+//@   site ).Read#10 assert [C04] $2 == 10 && $3 == false
+//@   sites ).Read = 11
+//@   sites ).Skip = 0
 //@   safety [C05]
 //
 //@ func (*LogInfo).ReadBlock
